@@ -829,4 +829,213 @@ theorem rejected_not_complete_count :
   simp only [cast, plus] at hc
   right; omega
 
+/-! ## 9. Quorum tightness, completeness of the early Rejected under exact conditions, no regress -/
+
+/-- **For `ThresholdQuorum` an early (or late) Passed implies the quorum is already met**: `is_passed = true` only if the
+votes cast reach `votes_needed(total_weight, quorum)` — before expiry as well as after; further votes can only add to
+the votes cast, so the quorum stays met (`passed_stable`). -/
+theorem passed_implies_quorum {p : Tally} {t q : Nat} (h : Premise p) {blk : Block}
+    (ht : p.threshold = .thresholdQuorum t q) (hp : isPassed p blk = .ok true) :
+    votesNeeded p.totalWeight q ≤ cast p.votes := by
+  rw [isPassed_quorum blk ht h.tally_le h.total_u64] at hp
+  have := Except.ok.inj hp
+  simp only [decide_eq_true_eq] at this
+  exact this.2.1
+
+/-- … in exact arithmetic: the turnout `cast / total` is at least `quorum`, up to the one vote of `vn_within_one`
+(`total·q ≤ (cast + 1)·10^18`), and exactly (`total·q ≤ cast·10^18`) for a quorum with at most 9 decimals. -/
+theorem passed_implies_quorum_exact {p : Tally} {t q : Nat} (h : Premise p) {blk : Block}
+    (ht : p.threshold = .thresholdQuorum t q) (hp : isPassed p blk = .ok true) :
+    p.totalWeight * q ≤ (cast p.votes + 1) * DEC_ONE ∧
+    (PRECISION_FACTOR ∣ q → p.totalWeight * q ≤ cast p.votes * DEC_ONE) := by
+  have hq := passed_implies_quorum h ht hp
+  have hv := h.valid; rw [ht] at hv
+  have hqq := (valid_quorum hv).2.2.2
+  exact ⟨(vn_le_iff_within_one hqq h.total_u64).2 hq, fun h9 => (vn_le_iff_exact9 h9 hqq h.total_u64).mp hq⟩
+
+/-- **Tightness of the quorum test**: conversely, a ThresholdQuorum proposal whose votes cast do not reach
+`votes_needed(total, quorum)` is never Passed, whatever the Yes share — not before expiry, not after. -/
+theorem no_quorum_not_passed {p : Tally} {t q : Nat} (h : Premise p) (blk : Block)
+    (ht : p.threshold = .thresholdQuorum t q) (hq : cast p.votes < votesNeeded p.totalWeight q) :
+    isPassed p blk = .ok false := by
+  rw [isPassed_quorum blk ht h.tally_le h.total_u64]
+  exact congrArg _ (decide_eq_false (fun hx => by have := hx.2.1; omega))
+
+/-- No completion of the outstanding votes passes as a final tally. -/
+def NoCompletionPasses (thr : Threshold) (total : Nat) (v : Votes) : Prop :=
+  ∀ c : Votes, cast (plus v c) ≤ total → libPasses thr total (plus v c) = false
+
+/-- **AbsoluteCount: what "no completion passes" means, exactly.**  With a validated count `k` (`1 ≤ k ≤ total`) and a
+tally within the total, no completion of the outstanding votes can pass iff the weight that has NOT voted Yes-or-nothing
+— No, Abstain and Veto together — exceeds `total - k`. -/
+theorem noCompletionPasses_count_iff {k total : Nat} {v : Votes} (hk : 0 < k ∧ k ≤ total) (hc : cast v ≤ total) :
+    NoCompletionPasses (.absoluteCount k) total v ↔ total - k < v.no + v.abstain + v.veto := by
+  obtain ⟨y, n, ab, ve⟩ := v
+  simp only [cast] at hc
+  constructor
+  · intro hall
+    have := hall ⟨total - (y + n + ab + ve), 0, 0, 0⟩ (by simp only [cast, plus]; omega)
+    simp only [libPasses, libPassesAt, plus, Bool.and_eq_false_iff, decide_eq_false_iff_not] at this
+    simp only
+    omega
+  · intro hlt c hcc
+    simp only [cast, plus] at hcc
+    simp only [libPasses, libPassesAt, plus, Bool.and_eq_false_iff, decide_eq_false_iff_not]
+    simp only at hlt
+    right; omega
+
+/-- `is_rejected` for AbsoluteCount counts the No weight only: it is true iff `total - k < no`. -/
+theorem isRejected_count_iff {p : Tally} {k : Nat} (h : Premise p) (blk : Block) (ht : p.threshold = .absoluteCount k) :
+    isRejected p blk = .ok true ↔ p.totalWeight - k < p.votes.no := by
+  have hv := h.valid; rw [ht] at hv
+  rw [isRejected_count blk ht (valid_count hv).2]
+  constructor
+  · intro hx; simpa using Except.ok.inj hx
+  · intro hx; exact congrArg _ (decide_eq_true hx)
+
+/-- **`rejected_complete_no_only` — the exact condition under which the early Rejected IS complete, AbsoluteCount.**
+(`rejected_not_complete_count` shows the unconditional converse of `rejected_sound` is false.)  For an `AbsoluteCount`
+threshold, if nobody has abstained or vetoed so far (`abstain = 0 ∧ veto = 0`: only Yes/No votes have been cast), then
+`is_rejected` is true EXACTLY when no completion of the outstanding votes can pass — before expiry as well as after.  In
+general (`noCompletionPasses_count_iff`, `isRejected_count_iff`) the gap between "cannot pass any more" and "reported
+Rejected" is exactly the abstained and vetoed weight: the first compares `total - k` with `no + abstain + veto`, the code
+with `no` alone. -/
+theorem rejected_complete_no_only {p : Tally} {k : Nat} (h : Premise p) (blk : Block)
+    (ht : p.threshold = .absoluteCount k) (hab : p.votes.abstain = 0) (hve : p.votes.veto = 0) :
+    isRejected p blk = .ok true ↔ NoCompletionPasses p.threshold p.totalWeight p.votes := by
+  have hv := h.valid; rw [ht] at hv
+  rw [isRejected_count_iff h blk ht, ht, noCompletionPasses_count_iff (valid_count hv) h.tally_le, hab, hve]
+  simp
+
+/-- **AbsolutePercentage: complete under `abstain = 0 ∧ veto = 0` only when the two roundings are tight.**  For an
+`AbsolutePercentage a` threshold with only Yes/No votes cast, not everybody having voted No (`no < total`), and
+`votes_needed(total, a) + votes_needed(total, 1 - a) = total` (no rounding loss: e.g. `total·a` is a whole number of
+votes), `is_rejected` is true whenever no completion of the outstanding votes can pass.  Without the tightness condition
+this is false: `rejected_not_complete_pct_no_only`. -/
+theorem rejected_complete_pct_no_only_tight {p : Tally} {a : Nat} (h : Premise p) (blk : Block)
+    (ht : p.threshold = .absolutePercentage a) (hab : p.votes.abstain = 0) (hve : p.votes.veto = 0)
+    (hno : p.votes.no < p.totalWeight)
+    (htight : votesNeeded p.totalWeight a + votesNeeded p.totalWeight (DEC_ONE - a) = p.totalWeight)
+    (hall : NoCompletionPasses p.threshold p.totalWeight p.votes) : isRejected p blk = .ok true := by
+  have hv := h.valid; rw [ht] at hv
+  rw [isRejected_pct blk ht h.abstain_le (valid_pct hv).2]
+  apply congrArg
+  have hc := h.tally_le
+  have := hall ⟨p.totalWeight - cast p.votes, 0, 0, 0⟩ (by simp only [cast, plus] at hc ⊢; omega)
+  rw [ht] at this
+  simp only [libPasses, libPassesAt, plus, Bool.and_eq_false_iff, decide_eq_false_iff_not, cast] at this
+  simp only [cast] at hc
+  rw [hab, hve] at this hc
+  simp only [Nat.add_zero, Nat.sub_zero] at this hc
+  rw [hab]
+  simp only [Nat.sub_zero, decide_eq_true_eq]
+  rcases this with h1 | h1 <;> omega
+
+/-- **AbsolutePercentage with only Yes/No votes is NOT complete in general** (rounding): total 10, threshold 51 %, five No
+votes and nothing else.  Passing needs `⌈10·0.51⌉ = 6` Yes, at most 5 are outstanding — no completion passes — but
+`is_rejected` compares `no = 5 > ⌈10·0.49⌉ = 5`, false: the proposal is reported Open until it expires. -/
+theorem rejected_not_complete_pct_no_only :
+    NoCompletionPasses (.absolutePercentage 510000000000000000) 10 ⟨0, 5, 0, 0⟩ ∧
+    isRejected ⟨.open, .absolutePercentage 510000000000000000, 10, ⟨0, 5, 0, 0⟩, .atHeight 100⟩ ⟨50, 0⟩ = .ok false ∧
+    currentStatus ⟨.open, .absolutePercentage 510000000000000000, 10, ⟨0, 5, 0, 0⟩, .atHeight 100⟩ ⟨50, 0⟩ = .ok .open := by
+  refine ⟨?_, by decide, by decide⟩
+  intro c hc
+  obtain ⟨cy, cn, cab, cve⟩ := c
+  simp only [cast, plus] at hc
+  simp only [libPasses, libPassesAt, plus, Bool.and_eq_false_iff, decide_eq_false_iff_not]
+  right
+  have hcab : cab = 0 ∨ cab = 1 ∨ cab = 2 ∨ cab = 3 ∨ cab = 4 ∨ cab = 5 := by omega
+  have e0 : votesNeeded 10 510000000000000000 = 6 := by decide
+  have e1 : votesNeeded 9 510000000000000000 = 5 := by decide
+  have e2 : votesNeeded 8 510000000000000000 = 5 := by decide
+  have e3 : votesNeeded 7 510000000000000000 = 4 := by decide
+  have e4 : votesNeeded 6 510000000000000000 = 4 := by decide
+  have e5 : votesNeeded 5 510000000000000000 = 3 := by decide
+  rcases hcab with rfl | rfl | rfl | rfl | rfl | rfl <;> simp only [Nat.zero_add] <;>
+    first
+    | (rw [show 10 - 0 = 10 from rfl, e0]; omega)
+    | (rw [show 10 - 1 = 9 from rfl, e1]; omega)
+    | (rw [show 10 - 2 = 8 from rfl, e2]; omega)
+    | (rw [show 10 - 3 = 7 from rfl, e3]; omega)
+    | (rw [show 10 - 4 = 6 from rfl, e4]; omega)
+    | (rw [show 10 - 5 = 5 from rfl, e5]; omega)
+
+/-- **… nor when everybody has voted No**: a single voter of weight 1 votes No under a 50 % threshold.  Nothing is
+outstanding and nothing can pass, yet `no = 1 > ⌈1·0.5⌉ = 1` is false: reported Open until expiry. -/
+theorem rejected_not_complete_all_no :
+    NoCompletionPasses (.absolutePercentage 500000000000000000) 1 ⟨0, 1, 0, 0⟩ ∧
+    isRejected ⟨.open, .absolutePercentage 500000000000000000, 1, ⟨0, 1, 0, 0⟩, .atHeight 100⟩ ⟨50, 0⟩ = .ok false := by
+  refine ⟨?_, by decide⟩
+  intro c hc
+  obtain ⟨cy, cn, cab, cve⟩ := c
+  simp only [cast, plus] at hc
+  simp only [libPasses, libPassesAt, plus, Bool.and_eq_false_iff, decide_eq_false_iff_not]
+  left; omega
+
+/-- **`status_never_regresses_with_votes`**: the status reported for a proposal never goes back as time passes and
+further votes arrive.  Inside the premise, if `current_status` answers `s` at block `b`, then after any further votes `c`
+(tally still within the total; none if the proposal had already expired at `b`) it answers at every later block `b'`, and
+the answer is `s` again unless `s` was Open: Passed stays Passed (`status_passed_stable`), Rejected stays Rejected
+(`rejected_stable`), a stored Executed/Rejected/Passed status is returned unchanged; only Open may move on. -/
+theorem status_never_regresses_with_votes {p : Tally} (h : Premise p) {b b' : Block} (hl : later b b') {s : Status}
+    (hs : currentStatus p b = .ok s) (c : Votes) (hc : cast (plus p.votes c) ≤ p.totalWeight)
+    (hvote : p.expires.isExpired b = true → c = noVotes) :
+    ∃ s', currentStatus { p with votes := plus p.votes c } b' = .ok s' ∧ (s' = s ∨ s = .open) := by
+  have h' : Premise { p with votes := plus p.votes c } := ⟨hc, h.total_u64, h.valid⟩
+  by_cases hst : p.status ≠ .open
+  · have e1 : currentStatus p b = .ok p.status := by unfold currentStatus; rw [if_pos hst]
+    have e2 : currentStatus { p with votes := plus p.votes c } b' = .ok p.status := by
+      unfold currentStatus; rw [if_pos hst]
+    rw [e1] at hs; cases hs
+    exact ⟨_, e2, Or.inl rfl⟩
+  · cases s with
+    | passed => exact ⟨_, status_passed_stable h hl hs c hc hvote, Or.inl rfl⟩
+    | rejected => exact ⟨_, rejected_stable h hl hs c hc hvote, Or.inl rfl⟩
+    | «open» =>
+      obtain ⟨s', hs'⟩ := (no_panic h' b').2.2
+      exact ⟨s', hs', Or.inr rfl⟩
+    | pending =>
+      exfalso
+      unfold currentStatus at hs
+      rw [if_neg hst] at hs
+      obtain ⟨pb, hpb⟩ := (no_panic h b).1
+      obtain ⟨rb, hrb⟩ := (no_panic h b).2.1
+      rw [hpb, ok_bind] at hs
+      cases pb <;> simp only [Bool.false_eq_true, if_false, if_true] at hs
+      · rw [hrb, ok_bind] at hs; split at hs <;> cases hs
+      · cases hs
+    | executed =>
+      exfalso
+      unfold currentStatus at hs
+      rw [if_neg hst] at hs
+      obtain ⟨pb, hpb⟩ := (no_panic h b).1
+      obtain ⟨rb, hrb⟩ := (no_panic h b).2.1
+      rw [hpb, ok_bind] at hs
+      cases pb <;> simp only [Bool.false_eq_true, if_false, if_true] at hs
+      · rw [hrb, ok_bind] at hs; split at hs <;> cases hs
+      · cases hs
+
+/-- non-vacuity of `passed_implies_quorum(_exact)` / `status_never_regresses_with_votes`: `exQuorum` is Passed before
+expiry with 23 votes cast ≥ `⌈0.4·30⌉ = 12`; -/
+example : isPassed exQuorum ⟨50, 0⟩ = .ok true ∧ votesNeeded exQuorum.totalWeight 400000000000000000 = 12 ∧
+    cast exQuorum.votes = 23 ∧ currentStatus exQuorum ⟨50, 0⟩ = .ok .passed ∧
+    currentStatus { exQuorum with votes := plus exQuorum.votes ⟨0, 7, 0, 0⟩ } ⟨100, 0⟩ = .ok .passed := by decide
+
+/-- non-vacuity of `no_quorum_not_passed`: 5 of 30 voted, all Yes — below the quorum of 12: not passed, early or late -/
+example : isPassed { exQuorum with votes := ⟨5, 0, 0, 0⟩ } ⟨50, 0⟩ = .ok false ∧
+    isPassed { exQuorum with votes := ⟨5, 0, 0, 0⟩ } ⟨100, 0⟩ = .ok false := by decide
+
+/-- non-vacuity of `rejected_complete_no_only`: count 6 of 10, five No votes and nothing else: rejected, and indeed no
+completion passes; with four No votes: neither. -/
+example : Premise ⟨.open, .absoluteCount 6, 10, ⟨0, 5, 0, 0⟩, .atHeight 100⟩ ∧
+    isRejected ⟨.open, .absoluteCount 6, 10, ⟨0, 5, 0, 0⟩, .atHeight 100⟩ ⟨50, 0⟩ = .ok true ∧
+    isRejected ⟨.open, .absoluteCount 6, 10, ⟨0, 4, 0, 0⟩, .atHeight 100⟩ ⟨50, 0⟩ = .ok false ∧
+    libPasses (.absoluteCount 6) 10 (plus ⟨0, 4, 0, 0⟩ ⟨6, 0, 0, 0⟩) = true :=
+  ⟨⟨by decide, by decide, by decide⟩, by decide, by decide, by decide⟩
+
+/-- non-vacuity of `rejected_complete_pct_no_only_tight`: 50 % of 10 is tight (`5 + 5 = 10`); six No votes: rejected -/
+example : votesNeeded 10 500000000000000000 + votesNeeded 10 (DEC_ONE - 500000000000000000) = 10 ∧
+    isRejected ⟨.open, .absolutePercentage 500000000000000000, 10, ⟨0, 6, 0, 0⟩, .atHeight 100⟩ ⟨50, 0⟩ = .ok true := by
+  decide
+
 end CwPlus.Props.C04
